@@ -189,7 +189,10 @@ def replay_and_validate(run, vh, behaviours, label):
 def replay_file(run, args):
     d = json.load(open(args.replay))
     vh = run.build_harness()
+    run.model_check("GenPop3", gen_cfg(ALL_CMDS, 0, "mc", users=("alice", "bob"), apopargs=(0, 1, 2, 3), accepts=(True, False), maxid=2, initcounts=(2,)),
+                    label="GenPop3(contract model, small)")
     replay_and_validate(run, vh, [d["behaviour"]], "replay")
+    run.cov["distinct_nontrivial"] = 1
     run.cov["samples"] = [d["behaviour"].get("_abs", [])[:14]]
     run.cov["rule"] = "replay of one recorded behaviour"
 
@@ -265,7 +268,7 @@ def c13(run, args):
         return f
 
     beh = behaviours_from(run, tour, stores_for(tour, both), "tour")
-    beh += behaviours_from(run, bfs, stores_for(bfs, rot if quick else both), "bfs")
+    beh += behaviours_from(run, bfs, stores_for(bfs, rot), "bfs")
     beh += behaviours_from(run, sim, stores_for(sim, rot if quick else both), "sim")
     run.cov["samples"] = [tour[len(tour) // 2], bfs[len(bfs) // 2], sim[0][:16]] if tour and bfs and sim else []
     replay_and_validate(run, vh, beh, "c13")
@@ -282,4 +285,4 @@ def c13(run, args):
                         "RETR/TOP of a marked or externally removed message: reply unconstrained (even its termination)",
                         "reply class left open for: transaction commands before login, login commands after login, DELE of a marked/nonexistent message, "
                         "CAPA/unknown/empty/garbage lines, STAT with an argument, LIST/UIDL with two arguments, PASS without a word, APOP with 1 or 3 words",
-                        "TLS (STLS) not exercised", "quick tier: BFS and simulated dialogues on one store each (rotating); thorough: both"]
+                        "TLS (STLS) not exercised", "tour dialogues run on both stores; BFS dialogues on one store each (rotating with index and seed); simulated dialogues: quick one store each, thorough both"]
